@@ -76,8 +76,9 @@ RENDERERS = {'html5': ('HTML5', 'default'), 'html5min': ('HTML5', 'minimal'), 'x
 #      | ['printindex'] | ['toc'] | ['quote', [inline...]]
 # inline = ['w', n] | ['b', [inline...]] | ['fn', [inline...]] | ['ref', label] | ['pageref', label] | ['cite', key] | ['idx', n]
 
-SEC_CMDS = {'article': ['part', 'section', 'subsection', 'subsubsection', 'paragraph', 'subparagraph'],
-            'book': ['part', 'chapter', 'section', 'subsection', 'subsubsection', 'paragraph']}
+# every sectioning command plasTeX defines (levels -1 .. 6; \subsubparagraph, level 6, is plasTeX's own and the top of the split-level range)
+SEC_CMDS = {'article': ['part', 'section', 'subsection', 'subsubsection', 'paragraph', 'subparagraph', 'subsubparagraph'],
+            'book': ['part', 'chapter', 'section', 'subsection', 'subsubsection', 'paragraph', 'subparagraph', 'subsubparagraph']}
 
 
 class Counter(object):
@@ -141,7 +142,7 @@ def clash_pool(template):
     return [pool, ['sect0001', 'sect0002', 'sect1', 'sect2', 'node001', 'sect01', 's01']]
 
 
-def gen_doc(rng, size=None, feats=None, label_style='plain', clash=None):
+def gen_doc(rng, size=None, feats=None, label_style='plain', clash=None, ladder=False):
     """a random document; labels are planned first so that references can point forwards and backwards"""
     cls = rng.choice(['article', 'article', 'book'])
     cmds = SEC_CMDS[cls]
@@ -152,9 +153,14 @@ def gen_doc(rng, size=None, feats=None, label_style='plain', clash=None):
     top = rng.choice([0, 1, 1, 1]) if cls == 'article' else rng.choice([0, 1, 1])
     plan = []
     d = top
+    if ladder:
+        # one unit of every level, outermost to innermost, then the random walk (biased to stay deep)
+        top = 0
+        plan = list(range(len(cmds)))
+        d = len(cmds) - 1
     for i in range(size):
         plan.append(d)
-        step = rng.choice([-2, -1, 0, 0, 1, 1, 1, 2])
+        step = rng.choice([-2, -1, 0, 0, 1, 1, 1, 2]) if not ladder else rng.choice([-3, -1, -1, 0, 0, 1, 1, 2])
         d = max(top, min(len(cmds) - 1, d + step))
     nsec = len(plan)
 
@@ -171,7 +177,7 @@ def gen_doc(rng, size=None, feats=None, label_style='plain', clash=None):
         if label_style == 'plain':
             return '%s%d' % (prefix, cnt.l)
         if label_style == 'punct':
-            return rng.choice(['%s:%d', '%s.%d', 'a %s %d', '%s_%d-x', '%s/%d']) % (prefix, cnt.l)
+            return rng.choice(['%s:%d', '%s.%d', 'a %s %d', '%s_%d-x', '%s/%d', '%s,%d', '%s;%d', '%s(%d)', '%s|%d', '%s<%d>']) % (prefix, cnt.l)
         return '%s%d' % (prefix, cnt.l)
     sec_labels = [mklabel('s') if rng.random() < (0.8 if clash else 0.6) else None for _ in range(nsec)]
     nbib = rng.randint(1, 3) if 'cite' in feats else 0
@@ -379,7 +385,7 @@ def shared_cases(seed, tier, boost=1):
     quick = tier == 'quick'
     # 1. exhaustive over split levels on small documents, default template, all three renderers
     for i in range(5 if quick else 30):
-        doc = gen_doc(rng, size=rng.randint(3, 6))
+        doc = gen_doc(rng, size=rng.randint(2, 5), ladder=True, label_style='punct' if i % 2 else 'plain')
         rname = ['html5', 'xhtml', 'html5min'][i % 3]
         for split in range(-10, 7):
             cfg = gen_cfg(rng, renderer=rname, split=split, template=TEMPLATES[0])
@@ -872,12 +878,30 @@ def _render_record(case):
         shutil.rmtree(base, ignore_errors=True)
 
 
+def _history(case):
+    """another document of the same class is parsed, and identifiers are generated for its nodes, before the case is rendered:
+    the same input must give the same files whatever the interpreter did before"""
+    from plasTeX.TeX import TeX, TeXDocument
+    cls = case['doc'].get('cls', 'article')
+    doc = TeXDocument()
+    tex = TeX(doc)
+    tex.disableLogging()
+    tex.input('\\documentclass{%s}\\begin{document}\\section{h}x\\footnote{y}\\subsection{k}z\\end{document}' % cls)
+    tex.parse()
+    for name in ('section', 'subsection', 'footnote'):
+        for n in doc.getElementsByTagName(name):
+            _ = n.id
+
+
 def _second_render(case):
     sys.path.insert(0, REPO) if REPO not in sys.path else None
     sys.setrecursionlimit(6000)
     outdir = os.path.join(tempfile.gettempdir(), 'verif-render', '%d' % os.getpid(), 'b')
     try:
         try:
+            from plasTeX.Logging import disableLogging
+            disableLogging()
+            _history(case)
             _one_render(case, outdir, False)
             return {'status': 'ok', 'files': first_digests(outdir)}
         except Exception as e:   # noqa
@@ -897,12 +921,21 @@ def _list_files(outdir):
     return out
 
 
-def _digest_file(path):
-    return hashlib.sha256(open(path, 'rb').read()).hexdigest()[:16]
+GENID_RE = re.compile(rb'a\d{10}')
 
 
 def first_digests(outdir):
-    return {k: _digest_file(os.path.join(outdir, k)) for k in sorted(_list_files(outdir))}
+    """file name -> digest of the content, generated identifiers (a0000000001 ...) renamed in order of first appearance over the
+    files in name order: their values depend on how many identifiers the interpreter generated before, their pattern must not"""
+    names = {}
+
+    def canon(m):
+        return names.setdefault(m.group(0), b'GENID%d' % len(names))
+    out = {}
+    for k in sorted(_list_files(outdir)):
+        data = GENID_RE.sub(canon, open(os.path.join(outdir, k), 'rb').read())
+        out[k] = hashlib.sha256(data).hexdigest()[:16]
+    return out
 
 
 def _walk_unrendered(case):
